@@ -188,6 +188,7 @@ spifconf_free_subsystem(void)
         v = v->next;
         spifconf_free_var(tmp);
     }
+    spifconf_vars = NULL;
     for (i = 0; i < builtin_idx; i++) {
         FREE(builtins[i].name);
     }
@@ -255,6 +256,8 @@ spifconf_put_var(spif_charptr_t var, spif_charptr_t val)
         D_CONF(("Comparing at %10p:  \"%s\" -> \"%s\", n == %d\n", v, v->var, v->value, n));
         if (n == 0) {
             FREE(v->value);
+            /* The existing entry keeps its own copy of the name. */
+            FREE(var);
             if (val) {
                 v->value = val;
                 D_CONF(("Variable already defined.  Replacing its value with \"%s\"\n", v->value));
@@ -274,6 +277,7 @@ spifconf_put_var(spif_charptr_t var, spif_charptr_t val)
     }
     if (!val) {
         D_CONF(("Empty value given for non-existant variable \"%s\".  Aborting.\n", var));
+        FREE(var);
         return;
     }
     D_CONF(("Inserting new var/val pair between \"%s\" and \"%s\"\n",
@@ -328,6 +332,7 @@ builtin_exec(spif_charptr_t param)
     fd = spiftool_temp_file(OutFile, sizeof(OutFile));
     if ((fd < 0) || fchmod(fd, (S_IRUSR | S_IWUSR | S_IRGRP | S_IROTH))) {
         libast_print_error("Unable to create unique temporary file for \"%s\" -- %s\n", param, strerror(errno));
+        FREE(Command);
         return ((spif_charptr_t) NULL);
     }
 
@@ -335,6 +340,7 @@ builtin_exec(spif_charptr_t param)
     if (maxlen > CONFIG_BUFF) {
         libast_print_error("Parse error in file %s, line %lu:  Cannot execute command, line too long\n",
                            file_peek_path(), file_peek_line());
+        FREE(Command);
         return ((spif_charptr_t) NULL);
     }
     strcpy((char *) Command, (char *) param);
@@ -832,7 +838,10 @@ spifconf_open_file(spif_charptr_t name)
      * whole file, so we don't do that here. */
     fp = fopen((char *) name, "rt");
     REQUIRE_RVAL(fp != NULL, NULL);
-    fgets((char *) buff, 256, fp);
+    if (!fgets((char *) buff, 256, fp)) {
+        /* Empty file:  no magic string to look at. */
+        *buff = 0;
+    }
     ver_str = spif_str_new_from_ptr(buff);
 
     /* Check for magic string. */
@@ -927,6 +936,8 @@ spifconf_parse_line(FILE * fp, spif_charptr_t buff)
                   file_poke_fp(pp_fp);
                   file_poke_preproc(1);
                   file_poke_outfile(outfile);
+              } else {
+                  FREE(outfile);
               }
           } else {
               if (file_peek_skip()) {
